@@ -163,6 +163,11 @@ theorem equiv_sound_gaussian (θ : Nat → Rat) (l1 l2 : List Cmd) (hn : l2.Nodu
     sem (GaussSem.g18 θ) l1 = sem (GaussSem.g18 θ) l2 :=
   equiv_sound (GaussSem.g18 θ) (GaussSem.g18_nodeKey θ) (GaussSem.g18_comm θ) l1 l2 hn h
 
+/-- **equal programs prepare the same Gaussian state** (`Program.__eq__`, no hypothesis about the interpretation) -/
+theorem eq_sound_gaussian (θ : Nat → Rat) (t1 t2 : String) (r1 r2 : List (Nat × Bool)) (l1 l2 : List Cmd)
+    (h : programEq t1 t2 r1 r2 l1 l2 = true) : sem (GaussSem.g18 θ) l1 = sem (GaussSem.g18 θ) l2 :=
+  eq_sound (GaussSem.g18 θ) (GaussSem.g18_key θ) t1 t2 r1 r2 l1 l2 h
+
 /-! ### non-vacuity -/
 def p1 : List Cmd :=
   [ { id := 0, cls := "Sgate", regs := [2], pars := [.num (1/2), .num 0] },
